@@ -168,6 +168,8 @@ MUTATORS = ("set", "del", "insert", "setdefault", "pop", "popd", "popitem",
             "supdate", "ior", "iand", "isub", "ixor")
 
 
+DELETERS = ("del", "pop", "popd", "popitem", "remove", "discard", "spop",
+            "isub", "iand", "ixor", "clear")
 RAISABLE = ("get", "getd", "getitem", "in", "has_key", "minKey", "maxKey",
             "range", "isdisjoint", "mod")
 
@@ -354,6 +356,11 @@ def execute(plan, ctx):
                             _node_class(sticky[0], A.c)))
                 ctx.interleaving((opn, _outcome_class(got), "cmp-raise"))
                 continue
+            form_before = "leaf"
+            if is_tree(kind):
+                st_ = B.c.__getstate__()
+                form_before = "empty" if st_ is None else (
+                    "embedded" if len(st_) == 1 else "multi")
             # twin first (also counts the comparisons of this operation)
             hook.counting()
             want = _do(B, op, dom, cfg, None)
@@ -395,6 +402,9 @@ def execute(plan, ctx):
             sig = dict(base, op=opn, fault=fk)
             if fk == "evict-in-compare":
                 sig["ghosted"] = "+".join(sorted(info["classes"])) or "none"
+                sig["form"] = form_before
+                sig["opclass"] = "delete" if opn in DELETERS else (
+                    "store" if opn in MUTATORS else "read")
             if not ops.same_outcome(got, want):
                 raise Violation(
                     dict(sig, oracle="twin-outcome", got=_outcome_class(got),
